@@ -361,6 +361,27 @@ static Case cases[] = {
          }
          return bad;
      }},
+    // ---- C10: digits of the integer part are not trailing zeros of the fraction
+    {"digit_integer_zeros_kept", [] {
+         struct { double v; unsigned p; Digit::RealFormatType t; const char *want; } cs[] = {
+             {100.04, 1U, Digit::RealFormatType::Fixed, "100.0"},     {10.04, 1U, Digit::RealFormatType::Fixed, "10.0"},
+             {120.04, 1U, Digit::RealFormatType::Fixed, "120.0"},     {100.004, 2U, Digit::RealFormatType::Fixed, "100.00"},
+             {119.952, 1U, Digit::RealFormatType::Fixed, "120.0"},    {109.995, 2U, Digit::RealFormatType::Fixed, "110.00"},
+             {100.04, 1U, Digit::RealFormatType::SemiFixed, "100"},   {119.952, 1U, Digit::RealFormatType::SemiFixed, "120"},
+             {10.007, 2U, Digit::RealFormatType::Default, "10"},      {10.007, 3U, Digit::RealFormatType::Default, "10"},
+         };
+         int bad = 0;
+         for (auto &c : cs) {
+             StringStream<char> ss;
+             Digit::NumberToString(ss, c.v, Digit::RealFormatInfo{c.p, c.t});
+             if (!ss.IsEqual(c.want, (SizeT)strlen(c.want))) {
+                 ss += '\0';
+                 printf("expected [%s], got [%s] for %.17g at precision %u\n", c.want, ss.First(), c.v, c.p);
+                 ++bad;
+             }
+         }
+         return bad;
+     }},
     // ---- C01: tag records whose 16-bit fields cannot hold the tag
     {"tmpl_inline_if_longer_than_16_bits", [] {
          std::string t = "{if case=\"1\" true=\"";
